@@ -101,6 +101,25 @@ def recover(ctx, tree, sc, what, rep, targets=None):
     if rc != 0 or rc2 != 0 or b"no work to do" not in so2 or "premature end of file" in txt:
         ctx.violation("C07/recompaction-after-recovery-loses-records", "%s: -t recompact rc=%s, then ninja rc=%s: %s" % (what, rc, rc2, txt[-400:]), rep)
         return False
+    # what the logs now say about discovered dependencies is what the last commands reported, not what an older record said:
+    # every header is edited, the build that follows must bring the tree to the clean state again
+    hdrs = sorted(p_ for p_ in sc["sources"] if p_.endswith(".h") and os.path.exists(tree.path(p_)))
+    if hdrs:
+        for h in hdrs:
+            cur = tree.read(h).decode("latin-1")
+            tree.write(h, cur + "// probe\n")
+        rc3, so3, se3 = tree.run(["-j3"] + (targets or []))
+        ctx.count("header_probes_after_recovery")
+        if rc3 != 0:
+            ctx.violation("C07/build-after-recovery-fails", "%s: after editing the headers: rc=%s %s" % (what, rc3, (so3 + se3).decode("latin-1")[-300:]), rep)
+            return False
+        bad = e2e.compare_with_clean(sc, tree, targets)
+        if bad:
+            o, got, want = bad[0]
+            st = next(s_ for s_ in sc["stmts"] if o in all_outs(s_))
+            ctx.violation("C07/stale-dependency-record-trusted-after-recovery/deps=%s%s" % (st["deps"], "/restat" if st["restat"] else ""),
+                          "%s: after recovery every header was edited and ninja ran again: %s is %r, a clean build gives %r" % (what, o, got, want), rep)
+            return False
     return True
 
 
@@ -131,6 +150,23 @@ def crash_scenario(ctx, seed, quick):
                     base.write(p, sc["sources"][p])
                 else:
                     base.touch(p)
+            if rng.random() < 0.5:
+                # a source now includes another header than before: what the victim build records about it differs from
+                # what the logs say so far
+                cands = [s for s in sc["stmts"] if s["kind"] == "cmd" and s["deps"] != "none" and "#include h" in sc["sources"].get(s["ins"][0], "")]
+                hdrs = sorted(p_ for p_ in sc["sources"] if p_.startswith("h") and p_.endswith(".h"))
+                if cands and len(hdrs) >= 2:
+                    s_ = rng.choice(cands)
+                    src = s_["ins"][0]
+                    lines = sc["sources"][src].split("\n")
+                    have = [l[9:] for l in lines if l.startswith("#include h")]
+                    other = [h for h in hdrs if h not in have]
+                    if other:
+                        old_h = rng.choice(have)
+                        lines[lines.index("#include " + old_h)] = "#include " + rng.choice(other)
+                        sc["sources"][src] = "\n".join(lines)
+                        base.write(src, sc["sources"][src])
+                        local["reincludes"] = local.get("reincludes", 0) + 1
             if rng.random() < 0.3:
                 s = rng.choice([s for s in sc["stmts"] if s["kind"] == "cmd"])
                 s["ver"] += 1
